@@ -215,9 +215,304 @@ theorem setOrCall_ok (cfg : Config) {x : Ctx} (h : Inv x.st) {p : Peer} (hp : p 
       · split
         · exact Ok.refl h
         · split
-          · exact Ok.refl h
-          · dsimp only
+          all_goals
             split
-            all_goals first | exact Ok.refl h | exact routeMain_ok cfg h hp req _ _ isState heo _ _
+            · exact Ok.refl h
+            · dsimp only
+              split
+              all_goals first | exact Ok.refl h | exact routeMain_ok cfg h hp req _ _ isState heo _ _
+
+theorem routingResponse_ok {x : Ctx} (h : Inv x.st) {p : Peer} (hp : p ∈ x.st.peers) (msg payload : Json)
+    (typ : String) : Ok x (routingResponse x p msg payload typ).1 := by
+  unfold routingResponse
+  split
+  · next rid _ =>
+    split
+    · exact Ok.refl h
+    · next r hr =>
+      have hrm : r ∈ p.routes := List.mem_of_find?_eq_some hr
+      have hreq := (h.routes p hp r hrm).2.1
+      have h1 : Inv { x.st with peers := removeRoute x.st.peers p.conn rid } := h.removeRoute _ _
+      have o1 : Ok x (emit { x with st := { x.st with peers := removeRoute x.st.peers p.conn rid } } (.timerDestroy r.timer)) :=
+        Ok.trans (y := { x with st := _ }) (Ok.of_out_eq h1 (conns_removeRoute _ _ _) rfl)
+          (Ok.emit h1 _ (by intro c j b hh; cases hh))
+      dsimp only
+      split
+      · exact o1
+      · split
+        · exact o1.trans (Ok.send' o1.inv (by rw [o1.2.1]; exact hreq) _)
+        · exact o1
+  · exact Ok.refl h
+
+theorem timeoutFired_ok {x : Ctx} (h : Inv x.st) (t : Nat) : Ok x (timeoutFired x t) := by
+  unfold timeoutFired
+  split
+  · exact Ok.refl h
+  · next r hr =>
+    have hrm := List.mem_of_find?_eq_some hr
+    obtain ⟨q, hq, hrq⟩ := List.mem_flatMap.1 hrm
+    have hreq := (h.routes q hq r hrq).2.1
+    have h1 : Inv { x.st with peers := removeRoute x.st.peers r.owner r.rid } := h.removeRoute _ _
+    have o1 : Ok x ({ x with st := { x.st with peers := removeRoute x.st.peers r.owner r.rid } } : Ctx) :=
+      Ok.of_out_eq h1 (conns_removeRoute _ _ _) rfl
+    dsimp only
+    split
+    · exact o1.trans (Ok.emit h1 _ (by intro c j b hh; cases hh))
+    · split
+      · next resp _ =>
+        have o2 := o1.trans (Ok.send' o1.inv (by rw [o1.2.1]; exact hreq) resp)
+        exact o2.trans (Ok.emit o2.inv _ (by intro c j b hh; cases hh))
+      · exact o1.trans (Ok.emit h1 _ (by intro c j b hh; cases hh))
+
+theorem foldl_ok' {α : Type} (Q : Ctx → Prop) (f : Ctx → α → Ctx) (l : List α) (x : Ctx) (h : Inv x.st) (hq : Q x)
+    (hf : ∀ y a, a ∈ l → Inv y.st → Q y → Ok y (f y a) ∧ Q (f y a)) : Ok x (l.foldl f x) ∧ Q (l.foldl f x) := by
+  induction l generalizing x with
+  | nil => exact ⟨Ok.refl h, hq⟩
+  | cons a l ih =>
+    have h1 := hf x a List.mem_cons_self h hq
+    have h2 := ih _ h1.1.inv h1.2 (fun y b hb hy => hf y b (List.mem_cons_of_mem _ hb) hy)
+    exact ⟨h1.1.trans h2.1, h2.2⟩
+
+/-- one iteration of add_fetch_to_states_in_peer -/
+def offerStep (cfg : Config) (fp : Peer) (f : Fetch) (owner : Peer) (x : Ctx) (e0 : Element) : Ctx :=
+  let e := match (findPeer x.st.peers owner.conn).bind (·.elements.find? (·.path == e0.path)) with
+    | some e => e | none => e0
+  let (x, e') := offerElement cfg x e fp f
+  { x with st := { x.st with peers := updatePeer x.st.peers owner.conn (fun q =>
+      { q with elements := q.elements.map (fun el => if el.path == e'.path then e' else el) }) } }
+
+theorem offerStep_ok (cfg : Config) (fp : Peer) (f : Fetch) (owner : Peer) {x : Ctx} (h : Inv x.st) (e0 : Element)
+    (hq : fp.conn ∈ conns x.st.peers ∧ (⟨fp.conn, f.uid⟩ : FetchKey) ∈ fetchKeys x.st.peers) :
+    Ok x (offerStep cfg fp f owner x e0) ∧
+    (fp.conn ∈ conns (offerStep cfg fp f owner x e0).st.peers ∧
+      (⟨fp.conn, f.uid⟩ : FetchKey) ∈ fetchKeys (offerStep cfg fp f owner x e0).st.peers) := by
+  unfold offerStep
+  dsimp only
+  generalize he : (match (findPeer x.st.peers owner.conn).bind (·.elements.find? (·.path == e0.path)) with
+    | some e => e | none => e0) = e
+  obtain ⟨b1, b2, b3, b4, b5, b6, b7⟩ := offerElement_spec cfg h e fp f hq.1
+  have hcu : ∀ (ps : List Peer) (hfun : Element → Element),
+      conns (updatePeer ps owner.conn (fun q => { q with elements := q.elements.map hfun })) = conns ps :=
+    fun ps hfun => conns_updatePeer (fun _ => rfl)
+  have hfk : ∀ (ps : List Peer) (hfun : Element → Element),
+      fetchKeys (updatePeer ps owner.conn (fun q => { q with elements := q.elements.map hfun })) = fetchKeys ps := by
+    intro ps hfun
+    rw [updatePeer_eq_map]
+    apply fetchKeys_map
+    · intro q; split <;> rfl
+    · intro q _; split <;> rfl
+  have hI' : Inv { (offerElement cfg x e fp f).1.st with
+      peers := updatePeer (offerElement cfg x e fp f).1.st.peers owner.conn (fun q =>
+        { q with elements := q.elements.map (fun el =>
+          if el.path == (offerElement cfg x e fp f).2.path then (offerElement cfg x e fp f).2 else el) }) } := by
+    apply b1.inv.updatePeer_elements
+    rw [b2]
+    intro q hqm hqc el hel
+    split
+    · next hpe =>
+      have hpe : el.path = e.path := by rw [← b5]; simpa using hpe
+      -- the element read back is an element of q
+      have hfound : e ∈ q.elements := by
+        have hfq : findPeer x.st.peers owner.conn = some q := by
+          rw [← hqc]; exact findPeer_of_mem h.nodup hqm
+        rw [hfq] at he
+        simp only [Option.bind_some] at he
+        cases hfind : q.elements.find? (·.path == e0.path) with
+        | some e1 =>
+          rw [hfind] at he
+          simp only at he
+          subst he
+          exact List.mem_of_find?_eq_some hfind
+        | none =>
+          rw [hfind] at he
+          simp only at he
+          subst he
+          have := List.find?_eq_none.1 hfind el hel
+          simp [hpe] at this
+      refine ⟨by rw [b5, hpe], ?_, ?_⟩
+      · rw [b6, h.owner q hqm e hfound, h.owner q hqm el hel]
+      · intro fk hfk'
+        right
+        rcases b7 fk hfk' with h' | h'
+        · exact h.fetchers q hqm e hfound fk h'
+        · rw [h']; exact hq.2
+    · exact ⟨rfl, rfl, fun fk hfk' => Or.inl hfk'⟩
+  refine ⟨b1.trans (Ok.of_out_eq hI' (hcu _ _) rfl), ?_, ?_⟩
+  · show fp.conn ∈ conns (updatePeer _ _ _)
+    rw [hcu, b2]; exact hq.1
+  · show _ ∈ fetchKeys (updatePeer _ _ _)
+    rw [hfk, b2]; exact hq.2
+
+theorem offerAllElements_ok (cfg : Config) {x : Ctx} (h : Inv x.st) (fp : Peer) (f : Fetch)
+    (hq : fp.conn ∈ conns x.st.peers ∧ (⟨fp.conn, f.uid⟩ : FetchKey) ∈ fetchKeys x.st.peers) :
+    Ok x (offerAllElements cfg x fp f) := by
+  have : offerAllElements cfg x fp f =
+      x.st.peers.foldl (fun x owner => owner.elements.foldl (offerStep cfg fp f owner) x) x := rfl
+  rw [this]
+  refine (foldl_ok' (fun y => fp.conn ∈ conns y.st.peers ∧ (⟨fp.conn, f.uid⟩ : FetchKey) ∈ fetchKeys y.st.peers)
+    _ _ x h hq ?_).1
+  intro y owner _ hy hqy
+  exact foldl_ok' (fun y => fp.conn ∈ conns y.st.peers ∧ (⟨fp.conn, f.uid⟩ : FetchKey) ∈ fetchKeys y.st.peers)
+    _ _ y hy hqy (fun z e0 _ hz hqz => offerStep_ok cfg fp f owner hz e0 hqz)
+
+theorem fetchReq_ok (cfg : Config) {x : Ctx} (h : Inv x.st) {p : Peer} (hp : p ∈ x.st.peers) (req : Json) :
+    Ok x (fetchReq cfg x p req).1 := by
+  unfold fetchReq
+  split
+  · exact Ok.refl h
+  · next params fid _ =>
+    split
+    · exact Ok.refl h
+    · split
+      · exact Ok.refl h
+      · next rule _ =>
+        dsimp only
+        have h1 : Inv { x.st with nextUid := x.st.nextUid + 1,
+            peers := updatePeer x.st.peers p.conn (fun q => { q with fetches := q.fetches ++ [{ uid := x.st.nextUid, fid := fid, rule := rule }] }) } :=
+          h.addFetch _ _ _
+        have hc1 : conns (updatePeer x.st.peers p.conn (fun q => { q with fetches := q.fetches ++ [{ uid := x.st.nextUid, fid := fid, rule := rule }] })) = conns x.st.peers :=
+          conns_updatePeer (fun _ => rfl)
+        refine Ok.trans (y := { x with st := _ }) (Ok.of_out_eq h1 hc1 rfl) (offerAllElements_ok cfg h1 _ _ ?_)
+        have hfpc : (match findPeer (updatePeer x.st.peers p.conn (fun q => { q with fetches := q.fetches ++ [{ uid := x.st.nextUid, fid := fid, rule := rule }] })) p.conn with
+            | some q => q | none => p).conn = p.conn := by
+          split
+          · next q hq => exact (findPeer_some hq).2
+          · rfl
+        rw [hfpc]
+        refine ⟨by rw [hc1]; exact mem_conns.2 ⟨p, hp, rfl⟩, ?_⟩
+        rw [mem_fetchKeys]
+        refine ⟨_, mem_updatePeer.2 ⟨p, hp, rfl⟩, ?_, { uid := x.st.nextUid, fid := fid, rule := rule }, ?_, rfl⟩
+        · simp
+        · simp
+
+theorem unfetchReq_ok {x : Ctx} (h : Inv x.st) (p : Peer) (req : Json) : Ok x (unfetchReq x p req).1 := by
+  unfold unfetchReq
+  split
+  · exact Ok.refl h
+  · split
+    · exact Ok.refl h
+    · refine Ok.of_out_eq (h.dropFetch _) ?_ rfl
+      show conns (dropFetch _ _) = _
+      unfold dropFetch mapElements
+      rw [conns_updatePeer (f := fun q => { q with fetches := q.fetches.filter _ }) (fun _ => rfl)]
+      exact conns_map (fun _ => rfl)
+
+theorem getReq_ok (cfg : Config) {x : Ctx} (h : Inv x.st) (p : Peer) (req : Json) : Ok x (getReq cfg x p req).1 := by
+  unfold getReq
+  split
+  · exact Ok.refl h
+  · split
+    · exact Ok.refl h
+    · exact Ok.refl h
+
+theorem configReq_ok {x : Ctx} (h : Inv x.st) (p : Peer) (req : Json) : Ok x (configReq x p req).1 := by
+  unfold configReq
+  split
+  · exact Ok.refl h
+  · split
+    · exact Ok.refl h
+    · next n _ =>
+      refine Ok.of_out_eq ?_ (conns_updatePeer (fun _ => rfl)) rfl
+      exact h.updatePeer_frame p.conn (fun q => { q with name := some n }) rfl rfl (Nat.le_refl _)
+        (fun _ => rfl) (fun _ => rfl) (fun _ => rfl) (fun _ => rfl)
+    · exact Ok.refl h
+
+theorem authenticateReq_ok (cfg : Config) {x : Ctx} (h : Inv x.st) (p : Peer) (req : Json) :
+    Ok x (authenticateReq cfg x p req).1 := by
+  unfold authenticateReq
+  split
+  · exact Ok.refl h
+  · next u pw _ =>
+    split
+    · exact Ok.refl h
+    · split
+      · exact Ok.refl h
+      · next auth _ =>
+        refine Ok.of_out_eq ?_ (conns_updatePeer (fun _ => rfl)) rfl
+        exact h.updatePeer_frame p.conn _ rfl rfl (Nat.le_refl _)
+          (fun _ => rfl) (fun _ => rfl) (fun _ => rfl) (fun _ => rfl)
+
+theorem passwdReq_ok {x : Ctx} (h : Inv x.st) (p : Peer) (req : Json) : Ok x (passwdReq x p req).1 := by
+  unfold passwdReq
+  split
+  · exact Ok.refl h
+  · split
+    · exact Ok.refl h
+    · split
+      · exact Ok.refl h
+      · dsimp only
+        split
+        · exact Ok.of_out_eq (h.frame rfl rfl (Nat.le_refl _)) rfl rfl
+        · exact Ok.refl h
+
+theorem handleMethod_ok (cfg : Config) {x : Ctx} (h : Inv x.st) {p : Peer} (hp : p ∈ x.st.peers) (req : Json)
+    (method : Bytes) : Ok x (handleMethod cfg x p req method).1 := by
+  unfold handleMethod
+  repeat' split
+  · exact changeState_ok h hp req
+  · exact setOrCall_ok cfg h hp req true
+  · exact setOrCall_ok cfg h hp req false
+  · exact addElement_ok cfg h hp req
+  · exact removeElementReq_ok h hp req
+  · exact fetchReq_ok cfg h hp req
+  · exact unfetchReq_ok h p req
+  · exact getReq_ok cfg h p req
+  · exact configReq_ok h p req
+  · exact Ok.refl h
+  · exact authenticateReq_ok cfg h p req
+  · exact passwdReq_ok h p req
+  · exact Ok.refl h
+
+theorem sendResponse_ok {x : Ctx} (h : Inv x.st) {c : Nat} (hc : c ∈ conns x.st.peers) (resp : Option Json) :
+    Ok x (sendResponse x c resp).1 := by
+  unfold sendResponse
+  split
+  · exact Ok.refl h
+  · exact Ok.send h hc _
+
+theorem parseJsonRpc_ok (cfg : Config) {x : Ctx} (h : Inv x.st) (c : Nat) (req : Json) :
+    Ok x (parseJsonRpc cfg x c req).1 := by
+  unfold parseJsonRpc
+  split
+  · exact Ok.refl h
+  · next p hp =>
+    have hpm := (findPeer_some hp).1
+    have hpc := (findPeer_some hp).2
+    have hc : c ∈ conns x.st.peers := mem_conns.2 ⟨p, hpm, hpc⟩
+    split
+    · next m _ =>
+      have h1 := handleMethod_ok cfg h hpm req m
+      exact h1.trans (sendResponse_ok h1.inv (by rw [h1.2.1]; exact hc) _)
+    · exact sendResponse_ok h hc _
+    · split
+      · exact routingResponse_ok h hpm _ _ _
+      · split
+        · exact routingResponse_ok h hpm _ _ _
+        · exact sendResponse_ok h hc _
+
+theorem parseJsonArray_ok (cfg : Config) {x : Ctx} (h : Inv x.st) (c : Nat) (l : List Json) :
+    Ok x (parseJsonArray cfg x c l).1 := by
+  induction l generalizing x with
+  | nil => exact Ok.refl h
+  | cons j rest ih =>
+    unfold parseJsonArray
+    split
+    · exact Ok.refl h
+    · next l' rest' heq =>
+      have h1 := parseJsonRpc_ok cfg h c (.obj l')
+      cases heq
+      dsimp only
+      split
+      · exact h1.trans (ih h1.inv)
+      · exact h1
+    · exact Ok.refl h
+
+theorem parseMessage_ok (cfg : Config) {x : Ctx} (h : Inv x.st) (c : Nat) (msg : Option Json) :
+    Ok x (parseMessage cfg x c msg).1 := by
+  unfold parseMessage
+  split
+  · exact parseJsonArray_ok cfg h c _
+  · exact parseJsonRpc_ok cfg h c _
+  · exact Ok.refl h
 
 end Cjet.Daemon.C05
